@@ -125,6 +125,33 @@ def run():
                            [('ForestIndex: component count + 1', c_forest, ['components', 'dimension']), ('ForestIndex: two indices swapped', c_forest2, ['lookups-not-inverse', 'onforest-vs-index', 'not-spanning-forest']),
                             ('greedy_fvs: last vertex dropped', c_fvs, ['remaining-graph-has-cycle']), ('SPTree: one distance + 1', c_spt, ['distance', 'pred-not-a-shortest-path-tree']),
                             ('Horton candidate weight + 1', c_coll, ['horton:candidate-weight']), ('ISO collection truncated to one candidate', c_coll2, ['iso:does-not-span-cycle-space', 'iso:no-minimum-basis-inside'])], wd) and ok
+        # MPI message level
+        import p_mpi
+        k4 = [vlib.graph_line(0, 4, [(0, 1, 1), (1, 2, 2), (2, 3, 1), (3, 0, 2), (0, 2, 1), (1, 3, 2)], 1)]
+        trm = vlib.parallel_record(p_mpi.harness(), k4, wd, 'st_msg', extra=['--msg', '--P', '2', '--layouts', 'identity', '--algos', 'fvs_mpi'], nproc=1)
+        mlines = open(trm).read().splitlines()
+
+        def nth(evs, kind, n=0):
+            return [e for e in evs if e.get('kind') == kind][n]
+
+        def g_weight(evs):
+            nth(evs, 'reduce')['ins'][1]['w'] += 1; return evs
+
+        def g_noreduce(evs):
+            evs.remove(nth(evs, 'reduce')); return evs
+
+        def g_stride(evs):
+            sc = nth(evs, 'scatter'); sc['val'][0].append(sc['val'][1].pop()); return evs
+
+        def g_notmin(evs):
+            r = nth(evs, 'reduce'); r['out'] = r['ins'][0] if r['ins'][0] != r['out'] else r['ins'][1]; return evs
+
+        def g_support(evs):
+            b = nth(evs, 'broadcast', 1); b['val'] = b['val'] + [2] if 2 not in b['val'] else [x for x in b['val'] if x != 2]; return evs
+        ok = corrupt_tests('MpiMsg', 'Trace_MpiMsg', 'Trace_MpiMsg.cfg', mlines, 'Run',
+                           [('contribution weight + 1', g_weight, ['contribution-weight']), ('one reduce removed', g_noreduce, ['collective-out-of-sequence']),
+                            ('scatter chunks unbalanced', g_stride, ['scatter-not-ceil-stride']), ('reduce result is not the minimum', g_notmin, ['reduce-result-not-minimum-of-contributions', 'emitted-cycle-is-not-the-reduce-result']),
+                            ('broadcast support vector altered', g_support, ['support-is-not-a-support-of-the-model', 'contribution-not-an-odd-cycle'])], wd) and ok
         # approx / spanner
         tra = vlib.parallel_record(p_approx.harness(), glines, wd, 'st_sp', extra=['--ks', '2', '--types', 'double', '--spanner'], nproc=1)
         alines = open(tra).read().splitlines()
